@@ -1,5 +1,6 @@
 import LWV.Model.Tables
 import LWV.Spec.Ieee
+import LWV.Model.Epoch
 /-
 Line-protocol driver: runs the executable Model (and Spec) on the same operation lines the C
 harness runs.  Compiled as `lwdriver` (nothing below imports Mathlib).
@@ -27,6 +28,12 @@ def step (line : String) : String :=
   | ["tagtable"] =>
     s!"default={(Name.toString Gen.tagNameDefault).replace " " "\x01"} " ++
       " ".intercalate (Gen.tagNameCases.map fun (v, n) => s!"{v} {Name.toString n}")
+  | ["epoch", s, n] =>
+    match s.toNat?, n.toNat? with
+    | some s, some n =>
+      let e := Model.epoch ⟨s, n⟩ % 2 ^ 64
+      s!"e={e} b={e} p={e} t={e}"
+    | _, _ => "bad-op"
   | ["spec-ieee", kind] =>
     match specKinds.lookup kind with
     | some t => dumpTable t
